@@ -57,7 +57,8 @@ SCHEMA_POS = {
     "nesteditem": lambda: {"type": "object", "properties": {"list": {"type": "array", "items": {"type": "object", "properties": {"t": ref("Tgt")}}}}},
     "nestedmap": lambda: {"type": "object", "properties": {"m": {"type": "object", "additionalProperties": {"type": "object", "properties": {"t": ref("Tgt")}}}}},
 }
-OP_POS = ["query", "header", "pathparam", "pathitem_query", "comp_param", "reqbody", "comp_reqbody", "respbody", "resp_array", "resp_default", "comp_response", "resp_map", "req_inline_prop"]
+OP_POS = ["query", "header", "pathparam", "pathitem_query", "comp_param", "reqbody", "comp_reqbody", "respbody", "resp_array", "resp_default", "comp_response", "resp_map", "req_inline_prop",
+          "resp_binary_404", "resp_binary_default", "resp_text_500"]
 
 
 def build_spec(pos, kind):
@@ -115,12 +116,23 @@ def build_spec(pos, kind):
         holder_op["responses"] = ok200({"type": "object", "additionalProperties": ref("Tgt")})
     elif pos == "resp_default":
         holder_op["responses"]["default"] = {"description": "err", "content": {"application/json": {"schema": ref("Tgt")}}}
+    elif pos == "resp_binary_404":
+        holder_op["responses"]["404"] = {"description": "nf", "content": {"image/png": {"schema": ref("Tgt")}}}
+    elif pos == "resp_binary_default":
+        holder_op["responses"]["default"] = {"description": "err", "content": {"application/pdf": {"schema": ref("Tgt")}}}
+    elif pos == "resp_text_500":
+        holder_op["responses"]["500"] = {"description": "err", "content": {"text/plain": {"schema": ref("Tgt")}}}
     elif pos == "comp_response":
         comps["responses"] = {"Resp": {"description": "r", "content": {"application/json": {"schema": ref("Tgt")}}}}
         holder_op["responses"] = {"200": {"$ref": "#/components/responses/Resp"}}
     else:
         raise ValueError(pos)
-    paths = {path: item, "/other": {"get": {"operationId": "other_op", "responses": ok200(ref("Tgt") if pos == "inline_twin" else ref("Other"))}}}
+    # the other operation's path item carries a parameter of its own: with --only / --exclude it must not drag its schema in
+    schemas["OtherParam"] = {"type": "string", "enum": ["p", "q"]}
+    comps.setdefault("parameters", {})["OtherShared"] = {"name": "osh", "in": "query", "schema": ref("OtherSharedKind")}
+    schemas["OtherSharedKind"] = {"type": "string", "enum": ["s1", "s2"]}
+    paths = {path: item, "/other": {"parameters": [{"name": "oq", "in": "query", "schema": ref("OtherParam")}, {"$ref": "#/components/parameters/OtherShared"}],
+                                    "get": {"operationId": "other_op", "responses": ok200(ref("Tgt") if pos == "inline_twin" else ref("Other"))}}}
     return {"openapi": "3.1.0", "info": {"title": "t", "version": "1"}, "paths": paths, "components": comps}
 
 
@@ -344,7 +356,7 @@ def main(tier, seed, replay=None):
                        "traces_validated_against_impl": n_closed, "exhaustive": True, "emitted_type_items": n_emitted,
                        "generator_failures_on_grammar_specs": gen_fail, "reachable_in_model_but_no_item": reach_not_emitted,
                        "rustc_checked_modules": len(pick),
-                       "rule": "exhaustive matrix {reference position: 17 schema-level positions (incl. nullable / untyped array items), discriminator mapping, an inline twin of a component only another operation uses, 13 operation-level positions} x {12 kinds of referenced schema} x {default, --all-schemas, --only, --exclude} (inapplicable pairs skipped), plus feature-grammar specs; client-mod output read back with syn: every type name mentioned by a struct field / enum variant / alias is defined exactly once in types.rs or is external; with default scoping every emitted component-schema type lies in the extracted model's expanded set; rustc name resolution (E0412/E0425/E0428/E0432/E0433) on whole modules (sample in quick, all in thorough)"})
+                       "rule": "exhaustive matrix {reference position: 17 schema-level positions (incl. nullable / untyped array items), discriminator mapping, an inline twin of a component only another operation uses, 16 operation-level positions incl. binary / text media types on non-success and default responses; the unselected operation's path item has parameters of its own} x {12 kinds of referenced schema} x {default, --all-schemas, --only, --exclude} (inapplicable pairs skipped), plus feature-grammar specs; client-mod output read back with syn: every type name mentioned by a struct field / enum variant / alias is defined exactly once in types.rs or is external; with default scoping every emitted component-schema type lies in the extracted model's expanded set; rustc name resolution (E0412/E0425/E0428/E0432/E0433) on whole modules (sample in quick, all in thorough)"})
     for c in cases[:4]:
         res.sample({"case": c["name"], "flags": c["flags"]})
     res.cov["trusted_base"] = vlib.COMMON_TRUSTED + [
